@@ -86,6 +86,15 @@ def _parse(res, text):
     return res
 
 
+def _die_with_parent():
+    try:
+        import ctypes
+        import signal
+        ctypes.CDLL("libc.so.6", use_errno=True).prctl(1, signal.SIGKILL)
+    except Exception:
+        pass
+
+
 def run(module, cfg=None, workers=16, timeout=1200, env=None, simulate=None, depth=None,
         seed=None, coverage=False, deadlock=True, extra=(), spec_dir=SPEC, java_props=(), heap=None):
     """Run TLC on spec/<module>.tla with spec/<cfg> (default <module>.cfg).
@@ -120,7 +129,7 @@ def run(module, cfg=None, workers=16, timeout=1200, env=None, simulate=None, dep
     t0 = time.time()
     try:
         p = subprocess.run(cmd, cwd=spec_dir, env=e, stdout=subprocess.PIPE, stderr=subprocess.STDOUT,
-                           timeout=timeout, universal_newlines=True, errors="replace")
+                           timeout=timeout, universal_newlines=True, errors="replace", preexec_fn=_die_with_parent)
     except subprocess.TimeoutExpired as x:
         out = x.stdout or ""
         if isinstance(out, bytes):
